@@ -60,8 +60,11 @@ def run(tier):
         offsets = set([0, 1, hdr_len - 2, hdr_len - 1, hdr_len, hdr_len + 1, len(full) - 1, len(full) // 2])
         first_nl = full.index(b"\n")
         offsets |= {first_nl, first_nl + 1, first_nl + 2}
-        step = 1 if tier == "thorough" else max(1, len(full) // 40)
-        offsets |= set(range(0, len(full), step))
+        if tier == "thorough":
+            # every offset around the header (where the original defect was) and at the end, every 16th elsewhere
+            offsets |= set(range(0, min(len(full), 2 * hdr_len + 768))) | set(range(max(0, len(full) - 256), len(full))) | set(range(0, len(full), 16))
+        else:
+            offsets |= set(range(0, len(full), max(1, len(full) // 40)))
         for report in (False, True):
             for n in sorted(offsets):
                 if report and n % (4 if tier == "thorough" else 7):
@@ -101,7 +104,7 @@ def run(tier):
             raise vlib.BuildBroken("crash shim dry run gave no totals (exit %s): %s" % (code, out[-500:]))
         if tot_bytes < len(full) or tot_ops < 1:
             raise vlib.BuildBroken("crash shim does not see the output being written (%d bytes, %d ops)" % (tot_bytes, tot_ops))
-        step = 9 if tier == "thorough" else max(1, tot_bytes // 50)
+        step = 37 if tier == "thorough" else max(1, tot_bytes // 50)
         hdr_len = len(b"\n".join(full.split(b"\n", 2)[:2])) + 1
         pts = set(range(0, tot_bytes, step)) | {tot_bytes - 1}
         for base in range(0, tot_bytes, len(full)):
@@ -128,7 +131,7 @@ def run(tier):
            "checker_cmd": "make -C coq; coqc Props/C22.v; python crash enumeration with RLIMIT_FSIZE on the real binary",
            "trusted_base": vlib.TRUSTED_COMMON + ["OS semantics of RLIMIT_FSIZE/SIGXFSZ: the file holds exactly the bytes written before the limit", "rename(2) atomicity within a directory", "harness/shim/crashshim.c (LD_PRELOAD hooks of write/copy_file_range/sendfile/open/unlink/rename)"],
            "theorems": names, "evaluations": len(cases), "distinct_nontrivial": len(set(cases)),
-           "rule": "forced build killed by SIGXFSZ at byte offset n of the output (every n in thorough; ~45 offsets incl. both header line boundaries in quick; with and without --report), "
+           "rule": "forced build killed by SIGXFSZ at byte offset n of the output (thorough: every n in the header region and the last 256 bytes, every 16th elsewhere; ~45 offsets incl. both header line boundaries in quick; with and without --report), "
                    "followed by a normal build; non-trivial = distinct (grammar, report, offset)",
            "distribution": {"crash_points": len(cases), "cumulative_shim_points": nshim, "process_killed": killed, "violations": nviol},
            "samples": samples or [{"note": "no crash point killed the process"}]}
